@@ -270,9 +270,31 @@ def run(prog, chk):
             elif s['k'] == 'expr':
                 e = s['e']
                 if e['k'] == 'mcall' and SX.short(e['callee']) == 'append':
-                    seq.append(('parts', fold_string(SX.real_args(e)[0], resolve)))
+                    # `out.append(a).append(b)` appends a, then b
+                    chain = []
+                    while SX.is_node(e) and e.get('k') == 'mcall' and SX.short(e['callee']) == 'append':
+                        chain.append(e)
+                        e = SX.strip(e.get('obj'))
+                    for c_ in reversed(chain):
+                        seq.append(('parts', fold_string(SX.real_args(c_)[0], resolve)))
                 elif e['k'] == 'opcall' and e['op'] == '+=':
                     seq.append(('parts', fold_string(e['args'][1], resolve)))
+            elif s['k'] == 'for' and s.get('init') and s['init'].get('k') == 'decls' and len(s['init']['d']) == 1:
+                # iterator loop over the whole log: for (auto it = ops.begin(); it != ops.end(); ++it) out.append(*it);
+                iv = s['init']['d'][0]
+                i0 = SX.strip(iv.get('init'))
+                cp = SX.cmp_parts(s.get('c')) if SX.is_node(s.get('c')) else None
+                w = SX.write_target(s['inc']) if SX.is_node(s.get('inc')) else None
+                full = SX.is_node(i0) and i0.get('k') == 'mcall' and SX.short(i0['callee']) in ('begin', 'cbegin') and SX.is_this_member(SX.strip(i0.get('obj')), ops) \
+                    and cp and cp[0] == '!=' and SX.strip(cp[1]).get('id') == iv['id'] and SX.is_node(SX.strip(cp[2])) and SX.strip(cp[2]).get('k') == 'mcall' \
+                    and SX.short(SX.strip(cp[2])['callee']) in ('end', 'cend') and SX.is_this_member(SX.strip(SX.strip(cp[2]).get('obj')), ops) \
+                    and w and w[2] == '++' and SX.strip(w[0]).get('id') == iv['id'] \
+                    and not any(x['k'] in ('break', 'continue', 'return') for x in SX.walk(s['body']))
+                derefs = [n for n in SX.walk(s['body']) if (n['k'] == 'mcall' and SX.short(n['callee']) == 'append' or (n['k'] == 'opcall' and n['op'] == '+=')) and
+                          any((y.get('k') == 'un' and y.get('op') == '*' or y.get('k') == 'opcall' and y.get('op') == '*') and
+                              any(z.get('k') == 'ref' and z.get('id') == iv['id'] for z in SX.walk(y)) for y in SX.walk(n))]
+                if full and derefs:
+                    seq.append(('ops',))
             elif s['k'] == 'forrange':
                 rng = SX.strip(s['range'])
                 vid = s['var']['id']
